@@ -387,8 +387,11 @@ impl<R: DdsRuntime> DcpsParticipantFactory<R> {
                 topic_qos,
                 reply_sender,
             }) => reply_sender.send(
-                self.find_participant(&participant_handle)
-                    .and_then(|p| p.set_topic_qos(topic_name, topic_qos)),
+                self.domain_participant_list
+                    .iter_mut()
+                    .find(|x| x.get_instance_handle() == &participant_handle)
+                    .ok_or(DdsError::AlreadyDeleted)
+                    .and_then(|p| p.set_topic_qos(topic_name, topic_qos, &self.runtime)),
             ),
             DcpsMail::Topic(TopicServiceMail::GetQos {
                 participant_handle,
